@@ -16,6 +16,7 @@ open Srtla Srtla.Gen Srtla.Conn Srtla.Select Srtla.Rtt Srtla.Link Scalar
 set_option linter.unusedSectionVars false
 
 variable {F : Type} [Scalar F]
+variable {fa : List (Nat × Nat)}
 
 /-- The payload bytes of queued items. -/
 def bytesOf (q : List QItem) : List Bytes := q.map (·.1)
@@ -95,15 +96,18 @@ theorem takeBatch_spec (l : FLink F) (now : Nat) :
     exact ⟨rfl, rfl, this.1, this.2.1, rfl, rfl, rfl⟩
 
 /-- **`send_connection_batch`**: the wire receives exactly the queued datagrams, in queue order, each
-tagged with the link's conn id and byte-for-byte unchanged — or nothing at all, and that only when the
-queue was empty or a send failure was pending for this conn id (which is then consumed).  The queue is
-empty afterwards in every case. -/
+tagged with the link's conn id and byte-for-byte unchanged — or only a PREFIX of them (`failPrefix`: the
+datagrams `send_all_datagrams` got out before the failing call; none for a plain `failNext` injection), and that
+only when a send failure was pending for this conn id (which is then consumed).  The queue is empty afterwards in
+every case. -/
 theorem sendConnectionBatch_spec (l : FLink F) (now : Nat) (fn : List Nat) :
-    let r := sendConnectionBatch l now fn
+    let r := sendConnectionBatch fa l now fn
     r.1.queue = [] ∧ r.1.core.connId = l.core.connId ∧ r.1.probeCounter = l.probeCounter ∧
     r.1.regime = l.regime ∧ r.1.stallGated = l.stallGated ∧ r.1.core.connected = l.core.connected ∧
     ((r.2.1 = (bytesOf l.queue).map (fun x => (l.core.connId, x)) ∧ r.2.2.1 = true ∧ r.2.2.2 = fn) ∨
-     (r.2.1 = [] ∧ r.2.2.1 = false ∧ l.queue ≠ [] ∧ l.core.connId ∈ fn ∧ r.2.2.2 = fn.erase l.core.connId)) := by
+     (r.2.1 = ((bytesOf l.queue).take (failPrefix fa l.core.connId (fn.count l.core.connId))).map
+          (fun x => (l.core.connId, x)) ∧
+        r.2.2.1 = false ∧ l.queue ≠ [] ∧ l.core.connId ∈ fn ∧ r.2.2.2 = fn.erase l.core.connId)) := by
   have ht := takeBatch_spec l now
   unfold sendConnectionBatch
   dsimp only
@@ -121,12 +125,12 @@ theorem sendConnectionBatch_spec (l : FLink F) (now : Nat) (fn : List Nat) :
     split
     · rename_i hc
       have : l.core.connId ∈ fn := by simpa using hc
-      simp [h2, h3, h4, h5, h6, h7, hne, this]
+      simp [h2, h3, h4, h5, h6, h7, hne, this, bytesOf, List.map_take, List.map_map, Function.comp_def]
     · simp [h2, h3, h4, h5, h6, h7, bytesOf, List.map_map, Function.comp_def]
 
 theorem sendConnectionBatch_fn_subset (l : FLink F) (now : Nat) (fn : List Nat) :
-    ∀ x ∈ (sendConnectionBatch l now fn).2.2.2, x ∈ fn := by
-  have := sendConnectionBatch_spec l now fn
+    ∀ x ∈ (sendConnectionBatch fa l now fn).2.2.2, x ∈ fn := by
+  have := sendConnectionBatch_spec (fa := fa) l now fn
   dsimp only at this
   rcases this.2.2.2.2.2.2 with h | h
   · rw [h.2.2]; exact fun _ hx => hx
@@ -184,13 +188,15 @@ theorem clearPreRegistration_spec (l : FLink F) (now : Nat) :
 the END of the queue, `b` = the bytes this pass put on the link's socket, `cause` = what must hold if
 queued items are discarded.  Exactly three shapes: *held* (queue grows by `app`, nothing sent; if something was appended the queue stays below the
 link's regime threshold, hence below 32),
-*sent* (the whole queue incl. `app` goes on the wire, in order, byte for byte), *discarded*. -/
+*sent* (the whole queue incl. `app` goes on the wire, in order, byte for byte), *discarded* (the queue is
+emptied and only a PREFIX of it - possibly none of it, possibly all - went on the wire: a send that failed part-way,
+or a reset that sent nothing). -/
 def LinkFx (cause : Prop) (app : List QItem) (l l' : FLink F) (b : List Bytes) : Prop :=
   l'.core.connId = l.core.connId ∧
   ((l'.queue = l.queue ++ app ∧ b = [] ∧
       (app = [] ∨ (l'.queue.length < l'.regime.batchSize ∧ l'.queue.length < 32))) ∨
    (l'.queue = [] ∧ b = bytesOf (l.queue ++ app)) ∨
-   (l'.queue = [] ∧ b = [] ∧ cause))
+   (l'.queue = [] ∧ (∃ k, b = (bytesOf (l.queue ++ app)).take k) ∧ cause))
 
 /-- Effect on the probe counter: when `stall_probe_due` was consulted (`called`) the counter advances
 modulo 100; otherwise it is unchanged or zeroed by a reset. -/
@@ -220,7 +226,7 @@ theorem queueThenFlush_fx (l : FLink F) (x : QItem) (now : Nat) (fn fn0 : List N
     (q.2 = false → LinkFx (FailedSendReset fn0 l q.1) [(x.1, x.2.1, now)] l q.1 [] ∧
         q.1.probeCounter = l.probeCounter) ∧
     (q.2 = true →
-      let r := sendConnectionBatch q.1 now fn
+      let r := sendConnectionBatch fa q.1 now fn
       let l3 := if r.2.2.1 then r.1 else r.1.markForRecovery
       ∃ b, r.2.1 = b.map (fun y => (l.core.connId, y)) ∧
         LinkFx (FailedSendReset fn0 l l3) [(x.1, x.2.1, now)] l l3 b ∧
@@ -236,7 +242,7 @@ theorem queueThenFlush_fx (l : FLink F) (x : QItem) (now : Nat) (fn fn0 : List N
     refine ⟨⟨by rw [hq3], Or.inl ⟨hq1, rfl, Or.inr ?_⟩⟩, hq4⟩
     rw [hq1, hq5]; simp; omega
   · intro _
-    have hs := sendConnectionBatch_spec (l.queueDataPacket x.1 x.2.1 now).1 now fn
+    have hs := sendConnectionBatch_spec (fa := fa) (l.queueDataPacket x.1 x.2.1 now).1 now fn
     dsimp only at hs
     obtain ⟨s1, s2, s3, s4, s5, s6, s7⟩ := hs
     rw [hq3] at s2 s6 s7
@@ -246,9 +252,9 @@ theorem queueThenFlush_fx (l : FLink F) (x : QItem) (now : Nat) (fn fn0 : List N
       · rw [w2]; exact ⟨s2, Or.inr (Or.inl ⟨s1, rfl⟩)⟩
       · rw [w2]; left; rw [if_pos rfl, s3, hq4]
       · rw [w3]; exact hfn
-    · refine ⟨[], by simpa using w1, ?_, ?_, ?_⟩
+    · refine ⟨_, w1, ?_, ?_, ?_⟩
       · simp only [w2, Bool.false_eq_true, if_false]
-        exact ⟨s2, Or.inr (Or.inr ⟨rfl, rfl, hfn _ w4, rfl, rfl⟩)⟩
+        exact ⟨s2, Or.inr (Or.inr ⟨rfl, ⟨_, rfl⟩, hfn _ w4, rfl, rfl⟩)⟩
       · simp only [w2, Bool.false_eq_true, if_false]; right; rfl
       · rw [w5]; exact fun y hy => hfn y (List.mem_of_mem_erase hy)
 
